@@ -2,6 +2,7 @@ package sim
 
 import (
 	"fmt"
+	"runtime"
 	"sort"
 	"strconv"
 	"strings"
@@ -46,7 +47,7 @@ type Member struct {
 	ready        bool
 	closing      bool // Close() called
 	lastNotifT   time.Duration
-	ackInConsume map[int]bool
+	ackInConsume map[int]uint64
 	trackPark    bool // an Ack issued from inside ConsumeEvent; park its next TrackOffset callback
 	stopped      bool // Start() returned
 	crashed      bool
@@ -175,13 +176,30 @@ func (m *Member) ConsumeEvent(ctx *models.ListenerContext) {
 	w.poke()
 }
 
+// setAckInConsume notes which goroutine acknowledges from inside ConsumeEvent (only that one may be parked in its
+// TrackOffset callback: the scheduler's own goroutine and its helpers issue acknowledgements, too).
 func (m *Member) setAckInConsume(vb int, on bool) {
 	m.w.mu.Lock()
 	if m.ackInConsume == nil {
-		m.ackInConsume = map[int]bool{}
+		m.ackInConsume = map[int]uint64{}
 	}
-	m.ackInConsume[vb] = on
+	if on {
+		m.ackInConsume[vb] = curGoroutineID()
+	} else {
+		delete(m.ackInConsume, vb)
+	}
 	m.w.mu.Unlock()
+}
+
+func curGoroutineID() uint64 {
+	var buf [64]byte
+	n := runtime.Stack(buf[:], false)
+	f := strings.Fields(string(buf[:n])) // "goroutine 123 [running]:"
+	if len(f) < 2 {
+		return 0
+	}
+	id, _ := strconv.ParseUint(f[1], 10, 64)
+	return id
 }
 
 // ack invokes the event's Ack (any goroutine; acks of one vBucket are issued one at a time).
@@ -212,7 +230,7 @@ func (m *Member) TrackOffset(vbID uint16, o *models.Offset) {
 	}
 	m.w.jl(&journal.Ev{K: journal.KTrack, M: m.id, Vb: int(vbID), Off: jOff(o)})
 	m.w.mu.Lock()
-	park := m.ackInConsume[int(vbID)] && m.trackPark
+	park := m.trackPark && m.ackInConsume[int(vbID)] != 0 && m.ackInConsume[int(vbID)] == curGoroutineID()
 	if park {
 		m.trackPark = false
 	}
@@ -489,7 +507,7 @@ func (m *Member) actions() []Action {
 	if strings.HasPrefix(m.mode, "deferred") {
 		for _, vb := range vbs {
 			l := m.unacked[vb]
-			if parked != nil && parked.vb == vb {
+			if parked != nil && parked.vb == vb || m.ackInConsume[vb] != 0 {
 				// acks of one vBucket are issued one at a time, as the library's call structure does:
 				// nothing is acknowledged for a vBucket while its ConsumeEvent is still running
 				continue
@@ -511,7 +529,7 @@ func (m *Member) actions() []Action {
 		}
 		sort.Ints(lvbs)
 		for _, vb := range lvbs {
-			if parked != nil && parked.vb == vb {
+			if parked != nil && parked.vb == vb || m.ackInConsume[vb] != 0 {
 				continue
 			}
 			stale = append(stale, cand{m.lastAck[vb], "dup"})
